@@ -179,6 +179,16 @@ func (s *Sched) pick() *G {
 }
 
 // block suspends the current goroutine until ready() holds.
+func (s *Sched) others() string {
+	out := ""
+	for _, g := range s.gs {
+		if g != s.main && !g.done {
+			out += "; g" + fmt.Sprint(g.id) + " waits on " + g.waitsOn
+		}
+	}
+	return out
+}
+
 func (s *Sched) block(ready func() bool, what string) {
 	g := s.cur
 	if len(s.gs) == 1 && ready() {
@@ -191,7 +201,7 @@ func (s *Sched) block(ready func() bool, what string) {
 		if next == nil {
 			if g == s.main {
 				g.ready = nil
-				panic(pathEnd{"deadlock", "all goroutines blocked; main waits on " + what})
+				panic(pathEnd{"deadlock", "all goroutines blocked; main waits on " + what + s.others()})
 			}
 			// let main report
 			s.wakeG(s.main)
@@ -217,7 +227,7 @@ func (s *Sched) block(ready func() bool, what string) {
 			// woken to report a deadlock
 			if len(s.runnable()) == 0 {
 				g.ready = nil
-				panic(pathEnd{"deadlock", "all goroutines blocked; main waits on " + what})
+				panic(pathEnd{"deadlock", "all goroutines blocked; main waits on " + what + s.others()})
 			}
 		}
 	}
